@@ -1132,7 +1132,7 @@ impl Property for C17 {
     fn runs(&self, tier: Tier) -> u64 {
         match tier {
             Tier::Quick => 24_000,
-            Tier::Thorough => 1_500_000,
+            Tier::Thorough => 8_000_000,
         }
     }
 
